@@ -20,6 +20,9 @@ def from_w8(b, signed=True):
 
 # ---- types ----
 def T(n): return {"k": "i", "n": n}
+def F(n): return {"k": "f", "n": n}
+def TY(n): return F(n) if n in ("float", "double") else T(n)
+def flit(n, neg, mag): return {"k": "flit", "t": F(n), "neg": bool(neg), "mag": mag if isinstance(mag, list) else w8(mag)}
 def P(t): return {"k": "p", "t": t}
 def A(t, n): return {"k": "a", "t": t, "n": n}
 def St(i): return {"k": "s", "id": i}
@@ -42,6 +45,7 @@ def s_static(n, t, init, uid, thread=False):
     if init is not None:
         d["init"] = init
     return d
+def misalign(l, n): return {"k": "misalign", "l": l, "n": n}
 def sizeof_(l): return {"k": "sizeof", "l": l}
 def s_vla(n, t, length): return {"k": "vla", "n": n, "t": t, "len": length}
 def incdec(l, dec=False, post=False): return {"k": "incdec", "l": l, "dec": dec, "post": post}
@@ -52,8 +56,10 @@ def asg_e(op, l, r): return {"k": "asg", "op": op, "l": l, "r": r}
 def s_expr(e): return {"k": "expr", "e": e}
 def s_asg(op, l, r): return {"k": "asg", "op": op, "l": l, "r": r}
 def s_obs(e): return {"k": "obs", "e": e}
-def s_decl(n, t, init=None):
+def s_decl(n, t, init=None, al=0):
     d = {"k": "decl", "n": n, "t": t}
+    if al:
+        d["al"] = al
     if init is not None:
         d["init"] = init
     return d
@@ -87,7 +93,9 @@ def s_ret(e=None):
 
 
 def func(name, ret, params, body): return {"name": name, "ret": ret, "params": [{"n": n, "t": t} for n, t in params], "body": body}
-def struct(name, fields): return {"name": name, "fields": [{"n": n, "t": t, "bw": bw} for n, t, bw in fields]}
+def struct(name, fields):
+    """fields: (name, type, bitwidth[, alignas])"""
+    return {"name": name, "fields": [{"n": f[0], "t": f[1], "bw": f[2], "al": f[3] if len(f) > 3 else 0} for f in fields]}
 def program(structs, globals_, funcs, charsigned=True): return {"charsigned": charsigned, "structs": structs, "globals": globals_, "funcs": funcs}
 
 
@@ -96,6 +104,8 @@ def ctype(t, structs, inner=""):
     """C declarator text for type t around `inner`."""
     if t["k"] == "i":
         return (CNAME[t["n"]] + " " + inner).rstrip()
+    if t["k"] == "f":
+        return (t["n"] + " " + inner).rstrip()
     if t["k"] == "s":
         return ("struct %s %s" % (structs[t["id"] - 1]["name"], inner)).rstrip()
     if t["k"] == "p":
@@ -131,6 +141,9 @@ def rexpr(e, structs):
     r = lambda x: rexpr(x, structs)
     if k == "lit":
         return rlit(e)
+    if k == "flit":
+        m = from_w8(e["mag"], signed=False)
+        return "(%s%d.0%s)" % ("-" if e["neg"] else "", m, "f" if e["t"]["n"] == "float" else "")
     if k == "var":
         return e["n"]
     if k == "un":
@@ -151,6 +164,8 @@ def rexpr(e, structs):
         return "(&%s)" % r(e["l"])
     if k == "sizeof":
         return "sizeof(%s)" % r(e["l"])
+    if k == "misalign":
+        return "((unsigned long)&%s %% %d)" % (r(e["l"]), e["n"])
     if k == "clit":
         return "((%s)%s)" % (ctype(e["t"], structs), rinit(e["init"] if "list" in e["init"] else {"list": [e["init"]]}, structs))
     if k == "incdec":
@@ -178,7 +193,7 @@ def rstmt(s, structs, ind=1):
     if k == "obs":
         return t + "obs(%s);\n" % r(s["e"])
     if k == "decl":
-        d = ctype(s["t"], structs, s["n"])
+        d = ("_Alignas(%d) " % s["al"] if s.get("al") else "") + ctype(s["t"], structs, s["n"])
         if "init" in s:
             d += " = " + rinit(s["init"], structs)
         return t + d + ";\n"
@@ -233,7 +248,7 @@ def render(p):
     for s in st:
         o += "struct %s {\n" % s["name"]
         for f in s["fields"]:
-            o += "\t" + ctype(f["t"], st, f["n"]) + (" : %d" % f["bw"] if f["bw"] else "") + ";\n"
+            o += "\t" + ("_Alignas(%d) " % f["al"] if f.get("al") else "") + ctype(f["t"], st, f["n"]) + (" : %d" % f["bw"] if f["bw"] else "") + ";\n"
         o += "};\n"
     for f in p["funcs"]:
         if f["name"] != "main":
